@@ -103,6 +103,23 @@ def run(ctx):
             if pos != want:
                 ctx.violation(f"enc:M={M}:position", f"PPM_ENCODER order {M}: ON positions {pos[:6]} differ from the big-endian values {want[:6]}", {"M": M, "bits": bits})
             ctx.case(("large-order", M, f))
+    # ---- sequences beyond 2^16 bits (k = 3, 5, 7 do not divide a power-of-two block): positions and round trip, compared in the harness
+    for M, L in ((8, 70001), (32, 65536 + 37), (128, 131072 + 5), (4, 65537)) + (((512, 200003),) if ctx.thorough else ()):
+        k = M.bit_length() - 1
+        bits = np.random.RandomState(L).randint(0, 2, L).astype(np.uint8)
+        enc = guarded(PPM_ENCODER, protect(bits.copy()) if M != 32 else "".join(map(str, bits)), M)
+        dec = guarded(PPM_DECODER, enc, M)
+        nsym = L // k
+        e_ = np.asarray(enc.data)
+        ok_shape = e_.size == nsym * M
+        pos_ok = ok_shape and bool(np.all(e_.reshape(nsym, M).sum(axis=1) == 1)) and \
+            bool(np.array_equal(e_.reshape(nsym, M).argmax(axis=1), bits[:nsym * k].reshape(nsym, k) @ (1 << np.arange(k - 1, -1, -1))))
+        rt_ok = bool(np.array_equal(np.asarray(dec.data), bits[:nsym * k]))
+        if not pos_ok:
+            ctx.violation(f"enc:M={M}:long-sequence", f"PPM_ENCODER of {L} bits, order {M}: not one ON slot per symbol at the big-endian position", {"M": M, "len": L})
+        if not rt_ok:
+            ctx.violation(f"rt:M={M}:long-sequence", f"PPM_DECODER(PPM_ENCODER(b)) differs from b truncated for {L} bits, order {M}", {"M": M, "len": L})
+        ctx.case(("long-sequence", M), None)
     # ---- HDD: every slot pattern up to 12 (16) slots, M <= 8, several numpy seeds
     maxs = 16 if ctx.thorough else 12
     seeds = [0, 1, 2, 3] if ctx.thorough else [0, 1]
